@@ -151,7 +151,7 @@ func newEventFromUntrustedJSONV2(eventJSON []byte, roomVersion IRoomVersion) (PD
 		}
 	}
 
-	if err = json.Unmarshal(eventJSON, &res); err != nil {
+	if err = json.Unmarshal(eventJSON, res); err != nil {
 		return nil, err
 	}
 
@@ -303,7 +303,7 @@ func newEventFromTrustedJSONV2(eventJSON []byte, redacted bool, roomVersion IRoo
 
 func newEventFromTrustedJSONWithEventIDV2(eventID string, eventJSON []byte, redacted bool, roomVersion IRoomVersion) (PDU, error) {
 	res := &eventV2{}
-	if err := json.Unmarshal(eventJSON, &res); err != nil {
+	if err := json.Unmarshal(eventJSON, res); err != nil {
 		return nil, err
 	}
 
